@@ -8,7 +8,10 @@ os.makedirs(dst, exist_ok=True)
 for n in os.listdir(src):
     p = os.path.join(src, n)
     if os.path.isdir(p):
-        shutil.copytree(p, os.path.join(dst, n), dirs_exist_ok=True)
+        try:
+            shutil.copytree(p, os.path.join(dst, n), dirs_exist_ok=True, symlinks=True)
+        except shutil.Error as e:
+            print('WARNING: not everything under', n, 'could be copied:', str(e)[:300])
     elif os.path.getsize(p) < 200000 and (not n.endswith(".mmm") or n.endswith(".transpiled.mmm")):
         shutil.copy(p, os.path.join(dst, n))
 json.dump(meta, open(os.path.join(dst, "meta.json"), "w"), indent=1)
